@@ -1,6 +1,7 @@
 \* a LEAD decided by the model: with PT_DYNAMIC as the first program header the load base is never computed
 \* (TLC must report a violation here; link editors never emit this order)
 CONSTANTS
+  Variant = "coded"
   Rels <- Rel1
   Relas <- Rela3
   Words <- W
